@@ -274,6 +274,10 @@ def run (ctx):
   from . import c15b
   ctx.stat('TLV value slices compared', c15b.tlv_value_slices(ctx, [c for mn in ('tcp', 'dhcp', 'lldp', 'icmpv6', 'ipv6') for c in repo.mod(PK + '.' + mn).classes.values()], 'D2'))
   _option_walkers(ctx, repo)
+  _sample_roundtrips(ctx, repo)
+  # a frame the library built goes back through the same decoders that read frames from the wire: an option decoder that gives up on
+  # a well-formed option (and whose failure is not contained in tcp.parse) yields no fields at all for that frame
+  ctx.include('C15', ['lib.packet.tcp:'], "frames built by the library are parsed by the TCP decoders whose containment C15 decides")
 
 def _bitfields (ctx, repo, mod, cls, pf, hf, Pf, H, hcall):
   """for each header slot that parse() reads into a local and splits into fields"""
@@ -883,3 +887,47 @@ def _option_walkers (ctx, repo):
            "`while %s` needs %s byte(s) remaining" % (norm(st.test), need) if good else
            "`while %s` needs %s bytes remaining although one-byte options exist: a NOP in the last header byte is never parsed and the re-serialised header differs" % (norm(st.test), need), (mod, st), 'D6')
   ctx.floor('option walkers with one-byte options', n, 1)
+
+
+def _sample_roundtrips (ctx, repo):
+  """Small fixed headers, by evaluation of both directions on sample field values: hdr() evaluated to concrete bytes, parse() evaluated
+  on those bytes, the fields compared - including the boundary values a presence flag depends on (a field that is 0 is not a field
+  that is absent)."""
+  SAMPLES = [('vxlan', 'vxlan', 'vni', [None, 0, 5, 0xabcdef], {})]
+  n_dec = 0
+  for mn, cn, fld, vals, extra in SAMPLES:
+    mod = repo.mod(PK + '.' + mn); cls = mod.classes.get(cn) if mod is not None else None
+    hf = cls.methods.get('hdr') if cls is not None else None; pf = cls.methods.get('parse') if cls is not None else None
+    if hf is None or pf is None: continue
+    ctx.analysed(hf); ctx.analysed(pf)
+    consts = {}
+    for k_, v_ in cls.assigns.items():
+      try:
+        c_ = repo.try_const(mod, v_, cls)
+        if isinstance(c_, int): consts['self.' + k_] = c_; consts['%s.%s' % (cn, k_)] = c_
+      except Exception: pass
+    gh, gp = q.cfg_of(hf), q.cfg_of(pf)
+    is_log = lambda e: isinstance(e, ast.Call) and call_name(e) in ('msg', 'err', 'warn')
+    def hook (call, env=None):
+      if isinstance(call.func, ast.Name) and call.func.id in ('ethernet', 'isinstance'): return (True, True if call.func.id == 'isinstance' else 'NEXT')
+      return q.PureCallHook(repo, mod)(call, env) if getattr(q.PureCallHook(repo, mod), 'wants_env', False) else q.PureCallHook(repo, mod)(call)
+    hook.wants_env = True
+    wrong = []; unknown = False
+    for v in vals:
+      outs = set()
+      for p_, e_ in q.paths_under(repo, mod, gh, q.Env(dict(consts, **{'self.' + fld: v}), [], q.PureCallHook(repo, mod)), gh.entry, [n for n in gh.nodes if n.kind == 'return'], cls, limit=20):
+        try: outs.add(q.eval_env2(repo, mod, p_[-1].ast.value, e_, cls))
+        except Exception: outs.add('?')
+      if len(outs) != 1 or not isinstance(list(outs)[0], bytes): unknown = True; continue
+      raw = list(outs)[0] + b'\0' * 14
+      back = set()
+      for p_, e_ in q.paths_under(repo, mod, gp, q.Env(dict(consts, **{pf.params[1]: raw})), [(is_log, None)], hook) if False else q.paths_under(repo, mod, gp, q.Env(dict(consts, **{pf.params[1]: raw}), [(is_log, None)], hook), gp.entry, [gp.exit], cls, limit=20):
+        back.add(e_.exact.get('self.' + fld, '?') if 'self.' + fld in e_.exact else '?')
+      if len(back) != 1 or '?' in back: unknown = True; continue
+      n_dec += 1
+      if list(back)[0] != v: wrong.append((v, list(outs)[0], list(back)[0]))
+    if unknown and not wrong:
+      ctx.undecided('R-AGREE', hf, "%s.%s survives hdr() -> parse() on sample values" % (cn, fld), "not evaluable for every sample", hf, 'D2'); continue
+    ctx.ob('R-AGREE', hf, "%s.%s survives hdr() -> parse() on sample values %s" % (cn, fld, vals), not wrong, "evaluated both directions" if not wrong else
+           "%s = %r is emitted as %r, which parse() reads back as %r: the header field does not survive build -> bytes -> parse (lengths and checksums stay valid, nothing raises)" % ((fld,) + wrong[0]), hf, 'D2')
+  ctx.stat('sample round trips decided', n_dec)
